@@ -677,7 +677,7 @@ def r2(ctx: RuleCtx) -> None:
                 ctx.require(ok, f'{q}: `{name}` handed to the installers as DESTDIR originates from --destdir / $DESTDIR', mod, q, f'{name} as DESTDIR',
                             f'`{name}` is passed where the callees expect the DESTDIR value but it does not originate from options.destdir / os.environ (origins: {sorted(org)})')
             else:
-                ctx.violation(mod, q, f'{p} must be {k}', f'entry point {q} is not called inside Installer, yet its parameter `{p}` must already be {k}: nothing roots it')
+                raise Undecided(f'{q} is not called inside Installer (an entry point the rule does not know), yet its parameter `{p}` must already be {k}')
     if 'Installer.do_install' not in ra.sums or not any(p.startswith('<local>') for p, _ in ra.sums['Installer.do_install'].demands):
         raise Undecided('Installer.do_install does not hand a local DESTDIR value to the installers')
 
@@ -2645,6 +2645,82 @@ def _symlink_sites(m: Model) -> T.List[LinkSite]:
     return out
 
 
+CREATABLE = ('a regular file', 'a dangling symlink', 'a symlink to a file', 'a symlink to a directory')   # what do_copyfile itself leaves behind
+
+
+class BlockSite(T.NamedTuple):
+    method: str
+    call: ast.Call
+    dest: str
+    blocked: T.List[str]
+    probes: T.List[str]
+    test: T.Optional[ast.AST]
+
+
+def _reinstall_blocks(m: Model) -> T.List[BlockSite]:
+    """In a loop that hands a locally computed destination to self.do_copyfile: for every kind of entry a previous run of the same
+    installer can have left there, the copy must still be reachable (not cut off by a rejection such as sys.exit / raise under a
+    probe that follows symlinks)."""
+    mod = m.mod
+    out: T.List[BlockSite] = []
+    if 'do_copyfile' not in m.inst:
+        return out
+    copyfn = m.inst['do_copyfile']
+    for name, fn in m.inst.items():
+        if name in m.dry.wrappers() or name == 'do_copyfile':
+            continue
+        loops = [st for st in walk_no_nested(fn) if isinstance(st, ast.For)]
+        for c in calls_in(fn):
+            if _self_method(c) != 'do_copyfile':
+                continue
+            try:
+                de = U.bind_args(c, copyfn).get('to_file')
+            except Undecided:
+                continue
+            encl = [l for l in loops if l.lineno <= c.lineno <= (l.end_lineno or 0)]
+            if not isinstance(de, ast.Name) or not encl:
+                continue
+            dest = de.id
+            probes: T.Dict[str, str] = {}
+            for x in calls_in(fn):
+                dn = U.dotted(mod, x.func)
+                if dn in PROBES_FOLLOW | PROBES_NOFOLLOW and len(x.args) == 1 and norm(x.args[0]) == dest:
+                    probes[norm(x)] = dn.rsplit('.', 1)[1]
+            if not probes:
+                continue
+            cfg = CFG(fn)
+            it = _iter_node(cfg, max(encl, key=lambda l: l.lineno))
+            exits = cfg.nodes_with_call(lambda x: norm(x.func) in ('sys.exit', 'exit', 'os._exit'))
+            alias = U.single_def_aliases(fn)
+            cnodes = U.node_of(cfg, c)
+            # other tests of the destination that the rule cannot classify make the verdict undecided
+            for n_ in cfg.nodes:
+                if n_.kind == 'test' and it.lineno <= n_.lineno <= (max(encl, key=lambda l: l.lineno).end_lineno or 0):
+                    for x in walk_no_nested(n_.ast.test):   # type: ignore[union-attr]
+                        if isinstance(x, ast.Call) and norm(x) not in probes and _self_method(x) is None and (U.dotted(mod, x.func) or '').startswith('os.path.is') \
+                                and any(isinstance(y, ast.Name) and y.id == dest for a_ in x.args for y in ast.walk(a_)):
+                            raise Undecided(f'Installer.{name}: the test `{short(x)}` of `{dest}` is not one of the classified os.path probes')
+            free = U.feasible_reach(cfg, [it], {k: False for k in probes}, alias, avoid=[it] + exits, skip_labels={'done'}, no_exc=True)
+            if not any(n.id in free for n in cnodes):
+                raise Undecided(f'Installer.{name}: the copy to `{dest}` is not reached even when nothing exists there')
+            blocked = []
+            for kind in CREATABLE:
+                facts = {k: ENTRY_KINDS[kind][p_] for k, p_ in probes.items()}
+                reach = U.feasible_reach(cfg, [it], facts, alias, avoid=[it] + exits, skip_labels={'done'}, no_exc=True)
+                if not any(n.id in reach for n in cnodes):
+                    blocked.append(kind)
+            test = None
+            if blocked:
+                facts = {k: ENTRY_KINDS[blocked[0]][p_] for k, p_ in probes.items()}
+                for n_ in cfg.nodes:
+                    if n_.kind == 'test' and any(norm(x) in probes for x in walk_no_nested(n_.ast.test) if isinstance(x, ast.Call)) \
+                            and U.tv(n_.ast.test, facts, alias) is True:       # type: ignore[union-attr]
+                        test = n_.ast.test      # type: ignore[union-attr]
+                        break
+            out.append(BlockSite(name, c, dest, blocked, sorted(set(probes.values())), test))
+    return out
+
+
 def r6(ctx: RuleCtx) -> None:
     ex = {s.method: s.failing for s in _symlink_sites(Model(U.synthetic_module('example/minstall.py', R6_EXAMPLE)))}
     if ex != {'good': [], 'bad': ['a dangling symlink']}:
@@ -2660,6 +2736,15 @@ def r6(ctx: RuleCtx) -> None:
                     f'when {" / ".join(s.failing)} already exists at `{s.dest}`, {short(s.call, 50)} is reached without self.remove({s.dest}) (probes used: {s.probes}; '
                     f'exists/isfile/isdir follow symlinks, so an entry left by a previous install is not seen): the creation fails with FileExistsError or is written through the old '
                     f'link - installing twice does not give the same tree and log', s.call)
+
+
+    # a re-install must get as far as the copy for everything the installer itself may have left at the destination
+    for b in _reinstall_blocks(m):
+        ctx.require(not b.blocked, f'Installer.{b.method}: the copy to `{b.dest}` stays reachable whatever a previous install left there ({len(CREATABLE)} kinds, probes {b.probes})',
+                    mod, f'Installer.{b.method}', f're-install of `{b.dest}` blocked by {norm(b.test) if b.test is not None else "a rejection"}',
+                    f'when {" / ".join(b.blocked)} (which do_copyfile itself creates for a link in the source tree) already sits at `{b.dest}`, the test '
+                    f'`{short(b.test) if b.test is not None else "?"}` follows the link and the iteration is rejected before {short(b.call, 50)}: '
+                    f'installing the same tree a second time aborts', b.call)
 
 
 # =============================================================================================
